@@ -261,9 +261,29 @@ def Collected (h : Hist) (ps : Secret) : Prop := ∃ o, (Action.poll ps, o) ∈ 
 /-- the LRU dropped the key at some point -/
 def Evicted (h : Hist) (k : Key) : Prop := ∃ o, (Action.evict k, o) ∈ h
 
-theorem decideData_respOf {sd : Data} {tid : Nat} (ht : sd.ticket = .good tid) (d : Decision) :
+/-- the decision is one the service can record: an abort, or an approval whose caveats `Add` accepts -/
+def Decision.ok : Decision → Bool
+  | .approve cs => !refuses cs
+  | .abort _ => true
+
+theorem decideData_respOf {sd : Data} {tid : Nat} (ht : sd.ticket = .good tid) (d : Decision) (hok : d.ok = true) :
     decideData sd d = some { sd with resp := respOf tid (some d) } := by
-  cases d <;> simp [decideData, ht, respOf]
+  cases d <;> simp_all [decideData, respOf, Decision.ok]
+
+theorem decideData_some_ok {sd nd : Data} {d : Decision} (h : decideData sd d = some nd) : d.ok = true := by
+  cases d with
+  | abort m => rfl
+  | approve cs =>
+    simp only [decideData] at h
+    split at h
+    · split at h
+      · cases h
+      · simp_all [Decision.ok]
+    · cases h
+
+theorem decideData_refused (sd : Data) {cs : List Nat} (h : refuses cs = true) : decideData sd (.approve cs) = none := by
+  simp only [decideData]
+  split <;> simp [h]
 
 theorem respOf_isAnswer {tid : Nat} {dec : Option Decision} {r : Resp} (h : respOf tid dec = some r) :
     r.body.isAnswer = true ∧ r.status = 200 := by
@@ -310,7 +330,10 @@ theorem step_cases' {st : Store} (wf : st.WF) (a : Action) (st' : Store) (o : Ou
     | bad n => simp [step] at h; obtain ⟨rfl, rfl⟩ := h; exact .quiet (by quiet_tac)
     | good tid =>
       cases m with
-      | immediate cs => simp [step, initGood] at h; obtain ⟨rfl, rfl⟩ := h; exact .quiet (by quiet_tac)
+      | immediate cs =>
+        by_cases hr : refuses cs = true
+        · simp [step, initGood, hr] at h; obtain ⟨rfl, rfl⟩ := h; exact .quiet (by quiet_tac)
+        · simp [step, initGood, hr] at h; obtain ⟨rfl, rfl⟩ := h; exact .quiet (by quiet_tac)
       | poll => simp [step, initGood] at h; obtain ⟨rfl, rfl⟩ := h; exact .insert (.inl rfl)
       | userInteractive => simp [step, initGood] at h; obtain ⟨rfl, rfl⟩ := h; exact .insert (.inr rfl)
       | refuse s m => simp [step, initGood] at h; obtain ⟨rfl, rfl⟩ := h; exact .quiet (by quiet_tac)
@@ -534,7 +557,7 @@ theorem Inv.next {st : Store} {h : Hist} (inv : Inv st h) {a : Action} {st' : St
     simp only at hk
     obtain ⟨tid0, ht0, hi0, hresp0⟩ := inv.flows a0 rc hr
     have hnd : nd = { rc.data with resp := respOf tid0 (some d) } := by
-      have := decideData_respOf ht0 d
+      have := decideData_respOf ht0 d (decideData_some_ok hdd)
       rw [this] at hdd
       exact (Option.some.inj hdd).symm
     have hni : ∀ t ps us, ¬ IssuingEv (Action.decide r s d, Out.api true) t ps us := by
@@ -717,6 +740,77 @@ theorem inv_foldl {c : Store × Hist} (inv : Inv c.1 c.2) (as : List Action) :
 /-- every reachable (store, history) pair satisfies the invariant -/
 theorem exec_inv (as : List Action) : Inv (exec as).1 (exec as).2 := inv_foldl Inv.init as
 
+/-! ### only decisions that `Add` accepts are ever recorded -/
+
+/-- every successful decision of the history is an abort or an approval whose caveats `Add` accepts -/
+def DecOK (h : Hist) : Prop := ∀ r s d, (Action.decide r s d, Out.api true) ∈ h → d.ok = true
+
+theorem decisionOf_some {ps us : Nat} {e : Action × Out} {d : Decision} (h : decisionOf ps us e = some d) :
+    ∃ r s, e = (.decide r s d, .api true) := by
+  unfold decisionOf at h
+  split at h
+  · split at h
+    · cases h; exact ⟨_, _, rfl⟩
+    · cases h
+  · split at h
+    · cases h; exact ⟨_, _, rfl⟩
+    · cases h
+  · cases h
+
+theorem lastDecision_mem {ps us : Nat} {h : Hist} {d : Decision} (hl : lastDecision ps us h = some d) :
+    ∃ r s, (Action.decide r s d, Out.api true) ∈ h := by
+  induction h with
+  | nil => simp [lastDecision] at hl
+  | cons e h ih =>
+    simp only [lastDecision] at hl
+    split at hl
+    · rename_i d' hd'
+      cases hl
+      obtain ⟨r, s, rfl⟩ := decisionOf_some hd'
+      exact ⟨r, s, List.mem_cons_self⟩
+    · obtain ⟨r, s, hm⟩ := ih hl
+      exact ⟨r, s, List.mem_cons_of_mem _ hm⟩
+
+/-- in any store state: a decision that is answered `ok` was one `Add` accepts -/
+theorem step_api_true_ok {st : Store} {r : Role} {s : Nat} {d : Decision}
+    (h : (step st (.decide r s d)).2 = .api true) : d.ok = true := by
+  simp only [step] at h
+  split at h
+  · simp at h
+  · split at h
+    · simp at h
+    · rename_i hdd
+      exact decideData_some_ok hdd
+
+theorem decOK_foldl {c : Store × Hist} (hc : DecOK c.2) (as : List Action) : DecOK (as.foldl stepH c).2 := by
+  induction as generalizing c with
+  | nil => exact hc
+  | cons a as ih =>
+    apply ih
+    intro r s d hm
+    simp only [stepH] at hm
+    rcases List.mem_cons.1 hm with he | hm
+    · simp only [Prod.mk.injEq] at he
+      obtain ⟨rfl, he⟩ := he
+      exact step_api_true_ok he.symm
+    · exact hc r s d hm
+
+theorem exec_dec_ok (as : List Action) : DecOK (exec as).2 :=
+  decOK_foldl (c := (Store.empty, [])) (by intro r s d hm; simp at hm) as
+
+/-- in any store state an approval whose caveats `Add` refuses returns an error and changes nothing -/
+theorem step_refused_approval (st : Store) (r : Role) (s : Nat) {cs : List Nat} (h : refuses cs = true) :
+    step st (.decide r s (.approve cs)) = (st, .api false) := by
+  simp only [step]
+  split
+  · rfl
+  · rw [decideData_refused _ h]
+
+/-- … and an immediate answer with such caveats is a 500 without a discharge -/
+theorem step_refused_immediate (st : Store) (tid : Nat) {cs : List Nat} (h : refuses cs = true) :
+    step st (.init (.good tid) (.immediate cs)) = (st, .http 500 .internal true) := by
+  simp [step, initGood, h]
+
 /-! ### consequences of the handler-level invariant -/
 
 theorem step_not_found {st : Store} {a : Action} {k : Key} (hk : a.key? = some k) (hg : st.get k = none) :
@@ -810,11 +904,11 @@ theorem Inv.poll_delivers {st : Store} {h : Hist} (inv : Inv st h) {tid ps us : 
   | approve cs => exact ⟨_, rfl, by simp [step, hg, ht, hresp, respOf, Store.delete, haddr]⟩
   | abort m => exact ⟨_, rfl, by simp [step, hg, ht, hresp, respOf, Store.delete, haddr]⟩
 
-theorem Inv.discharge_justified {st : Store} {h : Hist} (inv : Inv st h) {a : Action} {d : Discharge}
+theorem Inv.discharge_justified {st : Store} {h : Hist} (inv : Inv st h) (hok : DecOK h) {a : Action} {d : Discharge}
     (hd : (step st a).2.discharge? = some d) :
-    (∃ cs, a = .init (.good d.ticket) (.immediate cs) ∧ d = mkDischarge d.ticket cs) ∨
+    (∃ cs, a = .init (.good d.ticket) (.immediate cs) ∧ refuses cs = false ∧ d = mkDischarge d.ticket cs) ∨
     (∃ ps us cs, a = .poll ps ∧ Issued h d.ticket ps us ∧ lastDecision ps us h = some (.approve cs) ∧
-      d = mkDischarge d.ticket cs) := by
+      refuses cs = false ∧ d = mkDischarge d.ticket cs) := by
   cases a with
   | init t m =>
     cases t with
@@ -822,9 +916,11 @@ theorem Inv.discharge_justified {st : Store} {h : Hist} (inv : Inv st h) {a : Ac
     | good tid =>
       cases m with
       | immediate cs =>
-        simp [step, initGood, Out.discharge?] at hd
-        subst hd
-        exact .inl ⟨cs, rfl, rfl⟩
+        by_cases hr : refuses cs = true
+        · simp [step, initGood, Out.discharge?, hr] at hd
+        · simp [step, initGood, Out.discharge?, hr] at hd
+          subst hd
+          exact .inl ⟨cs, rfl, by simpa using hr, rfl⟩
       | poll => simp [step, initGood, Out.discharge?] at hd
       | userInteractive => simp [step, initGood, Out.discharge?] at hd
       | refuse s m => simp [step, initGood, Out.discharge?] at hd
@@ -856,7 +952,9 @@ theorem Inv.discharge_justified {st : Store} {h : Hist} (inv : Inv st h) {a : Ac
       obtain ⟨cs, hl, hdd⟩ := respOf_discharge hresp.symm
       have ht : d.ticket = tid := by rw [← hd, hdd]; rfl
       rw [ht]
-      exact ⟨_, _, cs, rfl, hi, hl, by rw [← hd]; exact hdd⟩
+      obtain ⟨r', s', hm⟩ := lastDecision_mem hl
+      have hcs : refuses cs = false := by simpa [Decision.ok] using hok _ _ _ hm
+      exact ⟨_, _, cs, rfl, hi, hl, hcs, by rw [← hd]; exact hdd⟩
   | userVisit s =>
     simp only [step] at hd
     split at hd
@@ -904,10 +1002,11 @@ def lastDecisionT (ps us : Nat) : Trace → Option Decision
 `init` on that very ticket, or a poll whose `Get` saw, as the latest decision on the flow that an
 `init` on that ticket inserted, an approval with exactly these caveats -/
 def DischargeJust (tr : Trace) (i : Nat) (act : Action) (d : Discharge) : Prop :=
-  (∃ cs, act = .init (.good d.ticket) (.immediate cs) ∧ d = mkDischarge d.ticket cs) ∨
+  (∃ cs, act = .init (.good d.ticket) (.immediate cs) ∧ refuses cs = false ∧ d = mkDischarge d.ticket cs) ∨
   (∃ ps us cs pre data, act = .poll ps ∧
     (Ev.op i act (.got (pollKey ps) (some data)) :: pre) <:+ tr ∧
-    InsertedT pre d.ticket ps us ∧ lastDecisionT ps us pre = some (.approve cs) ∧ d = mkDischarge d.ticket cs)
+    InsertedT pre d.ticket ps us ∧ lastDecisionT ps us pre = some (.approve cs) ∧ refuses cs = false ∧
+    d = mkDischarge d.ticket cs)
 
 /-- events that neither insert, nor remove, nor successfully update -/
 def Ev.neutral : Ev → Bool
@@ -960,16 +1059,49 @@ structure SInv (st : Store) (tr : Trace) : Prop where
   fresh : ∀ a, st.heap.length ≤ a → lastDecisionT (2 * a + 1) (2 * a) tr = none
   issued : ∀ tid ps us, InsertedT tr tid ps us → ∃ a, a < st.heap.length ∧ ps = 2 * a + 1 ∧ us = 2 * a
   gone : ∀ i act a, Ev.op i act (.removed a) ∈ tr → a < st.heap.length ∧ ∀ e ∈ st.keys, e.2 ≠ a
+  upd_ok : ∀ i r s d k nd, Ev.op i (.decide r s d) (.updated k nd true) ∈ tr → d.ok = true
 
 theorem SInv.init : SInv Store.empty [] :=
   ⟨Store.WF.empty, by simp [Store.empty], by simp [lastDecisionT],
-   by intro tid ps us ⟨i, m, h⟩; simp at h, by intro i act a h; simp at h⟩
+   by intro tid ps us ⟨i, m, h⟩; simp at h, by intro i act a h; simp at h,
+   by intro i r s d k nd h; simp at h⟩
+
+theorem decisionOfEv_some {ps us : Nat} {e : Ev} {d : Decision} (h : decisionOfEv ps us e = some d) :
+    ∃ i r s k nd, e = .op i (.decide r s d) (.updated k nd true) := by
+  unfold decisionOfEv at h
+  split at h
+  · split at h
+    · cases h; exact ⟨_, _, _, _, _, rfl⟩
+    · cases h
+  · split at h
+    · cases h; exact ⟨_, _, _, _, _, rfl⟩
+    · cases h
+  · cases h
+
+theorem lastDecisionT_mem {ps us : Nat} {tr : Trace} {d : Decision} (hl : lastDecisionT ps us tr = some d) :
+    ∃ i r s k nd, Ev.op i (.decide r s d) (.updated k nd true) ∈ tr := by
+  induction tr with
+  | nil => simp [lastDecisionT] at hl
+  | cons e tr ih =>
+    simp only [lastDecisionT] at hl
+    split at hl
+    · rename_i d' hd'
+      cases hl
+      obtain ⟨i, r, s, k, nd, rfl⟩ := decisionOfEv_some hd'
+      exact ⟨i, r, s, k, nd, List.mem_cons_self⟩
+    · obtain ⟨i, r, s, k, nd, hm⟩ := ih hl
+      exact ⟨i, r, s, k, nd, List.mem_cons_of_mem _ hm⟩
 
 /-- neutral events, store unchanged up to dropped keys -/
 theorem SInv.quiet {st st' : Store} {tr : Trace} (inv : SInv st tr) (evs : List Ev)
     (hn : ∀ e ∈ evs, e.neutral = true) (hwf : st'.WF) (hheap : st'.heap = st.heap)
     (hkeys : ∀ e ∈ st'.keys, e ∈ st.keys) : SInv st' (evs ++ tr) := by
-  refine ⟨hwf, ?_, ?_, ?_, ?_⟩
+  refine ⟨hwf, ?_, ?_, ?_, ?_, ?_⟩
+  rotate_left 4
+  · intro i r s d k nd hm
+    rcases List.mem_append.1 hm with hm | hm
+    · have := hn _ hm; simp [Ev.neutral] at this
+    · exact inv.upd_ok i r s d k nd hm
   · intro a r hr
     rw [hheap] at hr
     obtain ⟨tid, h1, h2, h3⟩ := inv.flows a r hr
@@ -993,7 +1125,12 @@ theorem SInv.insert {st : Store} {tr : Trace} (inv : SInv st tr) (i tid : Nat) (
   have hdn : ∀ ps us, decisionOfEv ps us (Ev.op i (.init (.good tid) m) (.inserted (.good tid) st.next (st.next + 1))) = none := by
     intro ps us; simp [decisionOfEv]
   have hn := inv.wf.next_eq
-  refine ⟨inv.wf.insert _, ?_, ?_, ?_, ?_⟩
+  refine ⟨inv.wf.insert _, ?_, ?_, ?_, ?_, ?_⟩
+  rotate_left 4
+  · intro j r s d k nd hm
+    rcases List.mem_cons.1 hm with he | hm
+    · simp at he
+    · exact inv.upd_ok j r s d k nd hm
   · intro c r hr
     simp only [Store.insert] at hr
     rw [List.getElem?_append] at hr
@@ -1040,13 +1177,20 @@ theorem decisionOfEv_flowKey (i a b : Nat) (r : Role) (s : Nat) (d : Decision) (
 
 theorem SInv.update {st : Store} {tr : Trace} (inv : SInv st tr) (i : Nat) (r : Role) (s : Nat) (d : Decision)
     (a0 tid0 : Nat) (rc : Rec) (k : Key) (ha : st.addr k = some a0) (hk : k = ⟨r, s⟩)
-    (hr : st.heap[a0]? = some rc) (ht0 : rc.data.ticket = .good tid0) :
+    (hr : st.heap[a0]? = some rc) (ht0 : rc.data.ticket = .good tid0) (hok : d.ok = true) :
     SInv { st with heap := st.heap.modify a0 (fun x => { x with data := ⟨.good tid0, respOf tid0 (some d)⟩ }) }
       (Ev.op i (.decide r s d) (.updated k ⟨.good tid0, respOf tid0 (some d)⟩ true) :: tr) := by
   subst hk
   obtain ⟨ha0, hkf⟩ := inv.wf.addr_flowKey ha
   simp only at hkf
-  refine ⟨inv.wf.modify a0 _, ?_, ?_, ?_, ?_⟩
+  refine ⟨inv.wf.modify a0 _, ?_, ?_, ?_, ?_, ?_⟩
+  rotate_left 4
+  · intro j r' s' d' k' nd' hm
+    rcases List.mem_cons.1 hm with he | hm
+    · simp only [Ev.op.injEq, Action.decide.injEq] at he
+      obtain ⟨_, ⟨_, _, rfl⟩, _⟩ := he
+      exact hok
+    · exact inv.upd_ok j r' s' d' k' nd' hm
   · intro c r' hr'
     simp only [List.getElem?_modify] at hr'
     cases hc : st.heap[c]? with
@@ -1092,7 +1236,12 @@ theorem SInv.remove {st : Store} {tr : Trace} (inv : SInv st tr) (i : Nat) (act 
     intro ps us; unfold decisionOfEv; split <;> first | rfl | (rename_i h; simp at h)
   have hheap : (st.remove a0).heap = st.heap := by
     unfold Store.remove; split <;> rfl
-  refine ⟨inv.wf.remove a0, ?_, ?_, ?_, ?_⟩
+  refine ⟨inv.wf.remove a0, ?_, ?_, ?_, ?_, ?_⟩
+  rotate_left 4
+  · intro j r s d k nd hm
+    rcases List.mem_cons.1 hm with he | hm
+    · simp at he
+    · exact inv.upd_ok j r s d k nd hm
   · intro c r hr
     rw [hheap] at hr
     obtain ⟨t, h1, h2, h3⟩ := inv.flows c r hr
@@ -1128,14 +1277,15 @@ def TInv (st : Store) (tr : Trace) (i : Nat) (th : Thread) : Prop :=
   | .pollDelete s r => th.act = .poll s ∧ PollJust tr i s r
   | .pollRemove s a r => th.act = .poll s ∧ PollJust tr i s r ∧ s = 2 * a + 1 ∧ a < st.heap.length
   | .update k nd => ∃ r s d a tid rc, th.act = .decide r s d ∧ k = ⟨r, s⟩ ∧ k = flowKey a r ∧
-      st.heap[a]? = some rc ∧ rc.data.ticket = .good tid ∧ nd = ⟨.good tid, respOf tid (some d)⟩
+      st.heap[a]? = some rc ∧ rc.data.ticket = .good tid ∧ nd = ⟨.good tid, respOf tid (some d)⟩ ∧ d.ok = true
   | .done _ => True
 
 /-- what is known about a returned handler -/
 def RetOK (tr : Trace) (i : Nat) (a : Action) (o : Out) : Prop :=
   (∀ d, o.discharge? = some d → DischargeJust tr i a d) ∧
   (∀ k, a.key? = some k → o = a.notFoundOut ∨ InsertedKey tr k) ∧
-  (∀ s, a = .poll s → o.delivers = true → ∃ adr j act, s = 2 * adr + 1 ∧ Ev.op j act (.removed adr) ∈ tr)
+  (∀ s, a = .poll s → o.delivers = true → ∃ adr j act, s = 2 * adr + 1 ∧ Ev.op j act (.removed adr) ∈ tr) ∧
+  (∀ r s cs, a = .decide r s (.approve cs) → refuses cs = true → o = .api false)
 
 /-- records are never reclaimed and keep their ticket -/
 def StoreLe (st st' : Store) : Prop :=
@@ -1165,11 +1315,11 @@ theorem TInv.mono {st st' : Store} {tr : Trace} {i : Nat} {th : Thread} (evs : L
 
 theorem RetOK.mono {tr : Trace} {i : Nat} {a : Action} {o : Out} (evs : List Ev) (h : RetOK tr i a o) :
     RetOK (evs ++ tr) i a o := by
-  refine ⟨fun d hd => (h.1 d hd).mono evs, fun k hk => ?_, fun s hs hd => ?_⟩
+  refine ⟨fun d hd => (h.1 d hd).mono evs, fun k hk => ?_, fun s hs hd => ?_, h.2.2.2⟩
   · rcases h.2.1 k hk with h | h
     · exact .inl h
     · exact .inr (h.mono evs)
-  · obtain ⟨adr, j, act, h1, h2⟩ := h.2.2 s hs hd
+  · obtain ⟨adr, j, act, h1, h2⟩ := h.2.2.1 s hs hd
     exact ⟨adr, j, act, h1, List.mem_append_right _ h2⟩
 
 structure TPart (S : Sys) (tr : Trace) : Prop where
@@ -1234,8 +1384,10 @@ theorem FInv.step_thread {S : Sys} {tr : Trace} (inv : FInv S tr) {i : Nat} {th 
 
 theorem retOK_simple {tr : Trace} {i : Nat} {a : Action} {o : Out} (hd : o.discharge? = none)
     (hk : ∀ k, a.key? = some k → o = a.notFoundOut ∨ InsertedKey tr k)
-    (hp : ∀ s, a = .poll s → o.delivers = false) : RetOK tr i a o := by
-  refine ⟨?_, hk, ?_⟩
+    (hp : ∀ s, a = .poll s → o.delivers = false)
+    (hr : ∀ r s cs, a = .decide r s (.approve cs) → refuses cs = true → o = .api false := by simp) :
+    RetOK tr i a o := by
+  refine ⟨?_, hk, ?_, hr⟩
   · intro d h; rw [hd] at h; cases h
   · intro s hs h; rw [hp s hs] at h; cases h
 
@@ -1341,13 +1493,17 @@ theorem micro_inv {S : Sys} {tr : Trace} (inv : FInv S tr) {i : Nat} {act : Acti
       | good tid =>
         cases m with
         | immediate cs =>
-          simp [micro, initGood] at hm
-          obtain ⟨rfl, rfl, rfl⟩ := hm
-          refine inv.quiet_return hi _ [] (by simp) ⟨?_, by simp [Action.key?], by simp⟩
-          intro d hd
-          simp [Out.discharge?] at hd
-          subst hd
-          exact .inl ⟨cs, rfl, rfl⟩
+          by_cases hrf : refuses cs = true
+          · simp [micro, initGood, hrf] at hm
+            obtain ⟨rfl, rfl, rfl⟩ := hm
+            exact inv.quiet_return hi _ [] (by simp) (retOK_simple rfl (by simp [Action.key?]) (by simp))
+          · simp [micro, initGood, hrf] at hm
+            obtain ⟨rfl, rfl, rfl⟩ := hm
+            refine inv.quiet_return hi _ [] (by simp) ⟨?_, by simp [Action.key?], by simp, by simp⟩
+            intro d hd
+            simp [Out.discharge?] at hd
+            subst hd
+            exact .inl ⟨cs, rfl, by simpa using hrf, rfl⟩
         | refuse st m =>
           simp [micro, initGood] at hm
           obtain ⟨rfl, rfl, rfl⟩ := hm
@@ -1414,7 +1570,9 @@ theorem micro_inv {S : Sys} {tr : Trace} (inv : FInv S tr) {i : Nat} {act : Acti
           subst hbd
           obtain ⟨cs, hl, hdd⟩ := respOf_discharge hresp.symm
           have htk : d.ticket = tid := by rw [hdd]; rfl
-          refine .inr ⟨_, _, cs, tr, sd, rfl, ?_, ?_, hl, ?_⟩
+          obtain ⟨i', r', s', k', nd', hmem⟩ := lastDecisionT_mem hl
+          have hcs : refuses cs = false := by simpa [Decision.ok] using inv.s.upd_ok _ _ _ _ _ _ hmem
+          refine .inr ⟨_, _, cs, tr, sd, rfl, ?_, ?_, hl, hcs, ?_⟩
           · simp
           · rw [htk]; exact hins
           · rw [htk]; exact hdd
@@ -1443,11 +1601,21 @@ theorem micro_inv {S : Sys} {tr : Trace} (inv : FInv S tr) {i : Nat} {act : Acti
       | some sd =>
         obtain ⟨a, rc, tid, ha, hr, hd, hk, ht, hins, hresp, hik⟩ := inv.s.of_get hg
         simp only [hg] at hm
-        rw [decideData_respOf ht d] at hm
-        simp at hm
-        obtain ⟨rfl, rfl, rfl⟩ := hm
-        refine inv.quiet_move hi _ [_] rfl (by simp [Ev.neutral]) ?_
-        exact ⟨r, s, d, a, tid, rc, rfl, rfl, hk, hr, hd ▸ ht, by simp [ht]⟩
+        cases hdd : decideData sd d with
+        | none =>
+          simp [hdd] at hm
+          obtain ⟨rfl, rfl, rfl⟩ := hm
+          exact inv.quiet_return hi _ [_] (by simp [Ev.neutral])
+            (retOK_simple rfl (by simp [Action.key?, Action.notFoundOut]) (by simp))
+        | some nd =>
+          have hok := decideData_some_ok hdd
+          rw [decideData_respOf ht d hok] at hdd
+          cases hdd
+          rw [decideData_respOf ht d hok] at hm
+          simp at hm
+          obtain ⟨rfl, rfl, rfl⟩ := hm
+          refine inv.quiet_move hi _ [_] rfl (by simp [Ev.neutral]) ?_
+          exact ⟨r, s, d, a, tid, rc, rfl, rfl, hk, hr, hd ▸ ht, by simp [ht], hok⟩
   | pollDelete s r =>
     obtain ⟨hact, hpj⟩ := hT
     simp only at hact
@@ -1478,7 +1646,7 @@ theorem micro_inv {S : Sys} {tr : Trace} (inv : FInv S tr) {i : Nat} {act : Acti
     intro j a' o hmem
     simp at hmem
     obtain ⟨rfl, rfl, rfl⟩ := hmem
-    refine ⟨?_, ?_, ?_⟩
+    refine ⟨?_, ?_, ?_, by simp⟩
     · intro d hd
       obtain ⟨rst, rb⟩ := r
       simp [deliver, Out.discharge?] at hd
@@ -1493,7 +1661,7 @@ theorem micro_inv {S : Sys} {tr : Trace} (inv : FInv S tr) {i : Nat} {act : Acti
       cases hs'
       exact ⟨a, j, .poll s, hs, by simp⟩
   | update k nd =>
-    obtain ⟨r, s, d, a, tid, rc, hact, hk1, hk2, hr, ht, hnd'⟩ := hT
+    obtain ⟨r, s, d, a, tid, rc, hact, hk1, hk2, hr, ht, hnd', hok⟩ := hT
     simp only at hact
     subst hact
     simp only [micro] at hm
@@ -1513,13 +1681,17 @@ theorem micro_inv {S : Sys} {tr : Trace} (inv : FInv S tr) {i : Nat} {act : Acti
         exact ((flowKey_inj this).1).symm
       subst haa
       subst hnd'
-      have hs1 := inv.s.update i r s d a' tid rc k ha' hk1 hr ht
+      have hs1 := inv.s.update i r s d a' tid rc k ha' hk1 hr ht hok
       have hs2 := hs1.quiet [.returned i (.decide r s d) (.api true)] (by simp [Ev.neutral]) hs1.wf rfl (fun _ h => h)
       refine inv.step_thread hi _ _ [_, _] hs2 (StoreLe.modify _ _ _ _ _ hr ht) (by simp [Ev.thread?]) trivial ?_
       intro j a'' o hmem
       simp at hmem
       obtain ⟨rfl, rfl, rfl⟩ := hmem
-      refine retOK_simple rfl ?_ (by simp)
+      refine retOK_simple rfl ?_ (by simp) ?_
+      rotate_left
+      · intro r' s' cs hact hrf
+        cases hact
+        simp [Decision.ok, hrf] at hok
       intro k' hk'
       simp [Action.key?] at hk'
       subst hk'
@@ -1783,7 +1955,7 @@ theorem gone_hb (s0 s1 : List Sched) {i ps us tid : Nat} {o : Out}
     (hret' : Ev.returned j a o' ∈ (s1.foldl Sys.step (Sys.run s0)).2)
     {k : Key} (hk : a.key? = some k) (hkk : k = pollKey ps ∨ k = userKey us) : o' = a.notFoundOut := by
   have inv := run_inv s0
-  obtain ⟨adr, j0, act0, hps, hrem⟩ := (inv.t.rets _ _ _ hret).2.2 ps rfl hdel
+  obtain ⟨adr, j0, act0, hps, hrem⟩ := (inv.t.rets _ _ _ hret).2.2.1 ps rfl hdel
   obtain ⟨hlt, hno⟩ := inv.s.gone _ _ _ hrem
   obtain ⟨a', _, hps', hus'⟩ := inv.s.issued _ _ _ hins
   have haa : a' = adr := by omega
@@ -1815,7 +1987,13 @@ theorem micro3_eq_step (st : Store) (a : Action) (hne : ∀ k, a ≠ .evict k) :
   | init t m =>
     cases t with
     | bad n => rfl
-    | good tid => cases m <;> rfl
+    | good tid =>
+      cases m with
+      | immediate cs => by_cases hrf : refuses cs = true <;> simp [microSt, micro, step, initGood, hrf]
+      | poll => rfl
+      | userInteractive => rfl
+      | refuse s m => rfl
+      | noResponse => rfl
   | evict k => exact absurd rfl (hne k)
   | poll s =>
     cases hg : st.get (pollKey s) with
